@@ -1,6 +1,7 @@
 //! wf-stark — engines for the end-to-end STARK properties (C01, C02, C03, C06, C28, C29).
 #![allow(clippy::all)]
 mod attack;
+mod coeffs;
 #[cfg(feature = "examples")]
 mod examples;
 mod genair;
@@ -126,6 +127,25 @@ fn examples_engine(_args: &[String]) -> i32 {
     2
 }
 
+fn coeffs_engine(args: &[String]) -> i32 {
+    let cases = read_ndjson(&args[0]);
+    let mut out = Out::new();
+    for (i, c) in cases.iter().enumerate() {
+        let cc: coeffs::CCase = match serde_json::from_value(c.clone()) {
+            Ok(c) => c,
+            Err(e) => {
+                eprintln!("bad case {i}: {e}");
+                return 2;
+            },
+        };
+        let mut r = wfcommon::util::catch(|| coeffs::run(&cc)).unwrap_or_else(|p| json!({"error": "panic", "detail": p}));
+        r["i"] = json!(i);
+        out.emit(&r);
+        out.flush();
+    }
+    0
+}
+
 fn validate_engine(args: &[String]) -> i32 {
     let cases = read_ndjson(&args[0]);
     let mut out = Out::new();
@@ -177,6 +197,7 @@ fn main() {
     let code = match args.get(1).map(|s| s.as_str()) {
         Some("pipeline") => pipeline(&args[2..]),
         Some("validate") => validate_engine(&args[2..]),
+        Some("coeffs") => coeffs_engine(&args[2..]),
         Some("digests") => digests_engine(&args[2..]),
         Some("attack") => attack_engine(&args[2..]),
         Some("examples") => examples_engine(&args[2..]),
